@@ -42,6 +42,8 @@ type c10Env struct {
 	ctx   sdk.Context
 	pairs map[int]*c10Pair
 	mal   map[string]*c10Pair
+	// a script-interpreting contract (model address 4) and an unregistered log-forging token, deployed on demand
+	puppet, stray common.Address
 }
 
 var c10ABI = contracts.ERC20MinterBurnerDecimalsContract.ABI
@@ -60,11 +62,11 @@ func c10Gen(r *rand.Rand, tier string) []Case {
 			fmt.Sprintf("preset 0 0 %d %d %d 0 0 0", 200+r.Intn(800), r.Intn(500), r.Intn(3)),
 			fmt.Sprintf("preset 1 1 0 0 0 %d %d %d", 200+r.Intn(800), r.Intn(500), r.Intn(3)),
 		}
-		c = append(c, "cc 0 1 1 half", "cc 0 2 3 half", "ce 1 1 1 half", "ce 1 2 3 half")
+		c = append(c, "cc 0 1 1 half", "cc 0 2 3 half", "ce 1 1 1 half", "ce 1 2 3 half", "cc 0 1 4 half", "tr 1 1 4 half")
 		for j := 0; j < 8+r.Intn(18); j++ {
 			p := r.Intn(2)
 			u, v := 1+r.Intn(3), 1+r.Intn(3)
-			switch x := r.Intn(23); {
+			switch x := r.Intn(24); {
 			case x < 5:
 				c = append(c, fmt.Sprintf("cc %d %d %d %s", p, u, v, amt()))
 			case x < 9:
@@ -77,6 +79,8 @@ func c10Gen(r *rand.Rand, tier string) []Case {
 				c = append(c, fmt.Sprintf("mint 1 %d %d", u, 1+r.Intn(300)))
 			case x < 16:
 				c = append(c, fmt.Sprintf("toggle %d", p))
+			case x == 22:
+				c = append(c, fmt.Sprintf("multi %d %s %d", p, pick(r, []string{"half", "1", "7"}), 1+r.Intn(60)))
 			case x >= 20:
 				// an allowance for the module address (or a user): an Approval log with the shape of a Transfer log
 				c = append(c, fmt.Sprintf("appr %d %d %d %d", p, u, pick(r, []int{0, 0, 0, v}), 1+r.Intn(400)))
@@ -105,8 +109,11 @@ func c10Exec(c Case) (outs []string, fails []Failure, tags []string) {
 	modEth := erc20types.ModuleAddress
 	modAcc := sdk.AccAddress(modEth.Bytes())
 	ethOf := func(u int) common.Address {
-		if u == 0 {
+		switch u {
+		case 0:
 			return modEth
+		case 4:
+			return env.puppet
 		}
 		return kr.GetKey(u).Addr
 	}
@@ -259,10 +266,15 @@ func c10Exec(c Case) (outs []string, fails []Failure, tags []string) {
 					p.denom = pair.Denom
 				}
 				env.pairs[id] = p
+				if (env.puppet == common.Address{}) {
+					empty, _ := abi.JSON(strings.NewReader("[]"))
+					env.puppet = deploy(1, evmtypes.CompiledContract{ABI: empty, Bin: c07InitCode(puppetRuntime())})
+					env.stray = c10DeployForger(env, deploy)
+				}
 				d, _, _, _, _ := dump(p)
 				out = "ok " + d
 				tags = append(tags, "preset")
-			case "cc", "ce", "tr", "burn", "mint", "toggle", "send", "appr":
+			case "cc", "ce", "tr", "burn", "mint", "toggle", "send", "appr", "multi":
 				p := env.pairs[vmIdx(f[1])]
 				if p == nil {
 					out = "no-pair"
@@ -289,6 +301,17 @@ func c10Exec(c Case) (outs []string, fails []Failure, tags []string) {
 					ok, _ = ethTx(cctx, s, &p.contract, in)
 					// the model refuses what the token accepts without effect
 					if x.Sign() == 0 || s == t {
+						ok = false
+					}
+				case "multi":
+					x := amount(f[2], bal(p, env.puppet))
+					f[2] = x.String()
+					t1, _ := c10ABI.Pack("transfer", ethOf(2), x)
+					forge := append([]byte{0xde, 0xad, 0xbe, 0xef}, common.LeftPadBytes(mustBig(f[3]).Bytes(), 32)...)
+					script := append(puppetCall(1, p.contract, big.NewInt(0), t1), puppetCall(0, env.stray, big.NewInt(0), forge)...)
+					script = append(script, puppetCall(0, env.stray, big.NewInt(0), forge)...)
+					ok, _ = ethTx(cctx, 1, &env.puppet, script)
+					if x.Sign() == 0 {
 						ok = false
 					}
 				case "appr":
